@@ -2,8 +2,9 @@
      N vs va ; C h ; M h ; R h vs va ; S h ; = hd hs ; X h ; A h n grow ; D h b n shrink ; F h n grow
    (M = construction from an rvalue allocator, F = allocate in which the base allocator threw)
    output: for every event what the extracted Coq model (PoolAlloc.step / proto_ok / h_ok / routed_ok) says:
-     <dest> <refs count bs al cached | dead> <allocs> <frees> <h_ok> <routed_ok> <proto_ok>
-   A line "retarget s1 a1 k s2 a2" asks for the state of a pool of (s1,a1) after k allocations and k
+     <dest> <refs count bs al cached sane | dead> <allocs> <frees> <h_ok> <routed_ok> <proto_ok>
+   The first pseudo-event "K bc cf" selects the pool configuration (blockCount, cachedFreeBlockCount).
+   A line "retarget bc cf s1 a1 k s2 a2" asks for the state of a pool of (s1,a1) after k allocations and k
    deallocations and then for the state after line 119 re-targets it to (s2,a2) (= OpAllocFail with no buffer
    obtained): cached_before count bs al cached_after 1.
    in exactly the format the harness prints its observations.
@@ -57,9 +58,12 @@ let split_events line =
   let parts = String.split_on_char ';' line in
   Stdlib.List.filter (fun l -> l <> []) (Stdlib.List.map words parts)
 
+let cfg = ref cfg_default
+let mk_cfg bc cf = { block_count = z_of_string bc; cached_free_block_count = z_of_string cf }
+
 let run_ops st ops = Stdlib.List.fold_left (fun st o -> match st with
   | None -> None
-  | Some s -> (match step s o with Ok (s', _) -> Some s' | _ -> None)) (Some st) ops
+  | Some s -> (match step !cfg s o with Ok (s', _) -> Some s' | _ -> None)) (Some st) ops
 
 let retarget s1 a1 k s2 a2 =
   let vt1 = { vsize = z_of_string s1; valign = z_of_string a1 } and vt2 = { vsize = z_of_string s2; valign = z_of_string a2 } in
@@ -70,7 +74,7 @@ let retarget s1 a1 k s2 a2 =
   | None -> "STUCK"
   | Some st ->
     let before = int (st.cached O) in
-    (match step st (OpAllocFail (nat 1, z_of_int 1, O)) with
+    (match step !cfg st (OpAllocFail (nat 1, z_of_int 1, O)) with
      | Ok (st', _) ->
        let p = st'.pools O in
        Printf.sprintf "%d %d %s %s %d 1" before (int p.pcount) (string_of_z (fst p.pparams)) (string_of_z (snd p.pparams)) (int (st'.cached O))
@@ -78,27 +82,32 @@ let retarget s1 a1 k s2 a2 =
 
 let () = iter_lines (fun line ->
   match words line with
-  | ["retarget"; s1; a1; k; s2; a2] -> print_endline (retarget s1 a1 k s2 a2)
+  | ["retarget"; bc; cf; s1; a1; k; s2; a2] -> cfg := mk_cfg bc cf; print_endline (retarget s1 a1 k s2 a2)
   | _ ->
   let evs = split_events line in
   let st = ref init in
+  cfg := cfg_default;
   let stuck = ref false in
   let k = ref 0 in
   let out = Stdlib.List.map (fun toks ->
     if !stuck then "STUCK" else
+    match toks with
+    | ["K"; bc; cf] -> cfg := mk_cfg bc cf; "K"      (* compile-time pool configuration of this history *)
+    | _ ->
     match parse_event toks with
     | None -> "?"
     | Some o ->
-      let pr = proto_ok !st o in
-      let hk = (match o with OpAllocFail (h, cnt, _) -> h_ok !st (OpAlloc (h, cnt, O)) | _ -> h_ok !st o) in
+      let pr = proto_ok !cfg !st o in
+      let hk = (match o with OpAllocFail (h, cnt, _) -> h_ok !cfg !st (OpAlloc (h, cnt, O)) | _ -> h_ok !cfg !st o) in
       let is_fail = (match o with OpAllocFail _ -> true | _ -> false) in
-      (match step !st o with
+      (match step !cfg !st o with
        | Ok (st', ob) ->
          incr k;
          st := if !k land 7 = 0 then compact st' else st';
          let p = (!st).pools ob.o_pool in
          let ps = if p.palive then
-             Printf.sprintf "%d %d %s %s %d" (int p.prefs) (int p.pcount) (string_of_z (fst p.pparams)) (string_of_z (snd p.pparams))
+             (* last token: MemPool's own invariant (head buffer has a free block, cache head consistent) - the model has no state in which it fails *)
+             Printf.sprintf "%d %d %s %s %d 1" (int p.prefs) (int p.pcount) (string_of_z (fst p.pparams)) (string_of_z (snd p.pparams))
                (int ((!st).cached ob.o_pool))
            else "dead" in
          Printf.sprintf "%s %s %d %d %s %s %s" (if is_fail then "E" else tag_str ob.o_dest) ps (int ob.o_allocs) (int ob.o_frees)
